@@ -17,16 +17,17 @@ VARIABLES l,      \* index of the current log line
           gone,   \* slots whose client closed (nothing more is read on them)
           kicked, \* slots the daemon closed (expected: the client saw EOF)
           devs,   \* names of the known-defect deviations that were needed to explain the trace
+          qfull,  \* unread clients whose outgoing queue has filled up: the copies their match rules would earn them vanish
           skipd,  \* slots some of whose written messages the daemon never read (it had closed the connection)
           carry   \* [Slot -> Seq of groups] staged for a client after its closing barrier ping of this round was
                   \* served: the client reads them at the beginning of the next round
 
-tvars == <<l, pos, cnt, sdone, gone, kicked, devs, skipd, carry>>
+tvars == <<l, pos, cnt, sdone, gone, kicked, devs, skipd, carry, qfull>>
 NoCarry == [s \in Slot |-> <<>>]
 \* deviations tolerated in this run: one JSON object {"dev": name} per line of the file named by VERIF_DEVS
 DevSet == LET d == ndJsonDeserialize(IOEnv.VERIF_DEVS) IN {d[i].dev : i \in 1..Len(d)}
-Plain(A) == A /\ UNCHANGED devs
-Dev(name, A) == name \in DevSet /\ A /\ devs' = devs \cup {name}
+Plain(A) == A /\ UNCHANGED <<devs, qfull>>
+Dev(name, A) == name \in DevSet /\ A /\ devs' = devs \cup {name} /\ UNCHANGED qfull
 Ev == Log[l]
 IsRound == l <= Len(Log) /\ Ev.e = "Round"
 
@@ -47,7 +48,7 @@ TInit ==
   /\ \E p \in PolicyChoices(Log[1].cfg.policy) :
         /\ cfg = [MkCfg(Log[1].cfg) EXCEPT !.policy = p] /\ devs = PrunedDev(p)
   /\ Init0
-  /\ pos = ZeroPos /\ cnt = ZeroPos /\ sdone = {} /\ gone = {} /\ kicked = {} /\ skipd = {} /\ carry = NoCarry
+  /\ pos = ZeroPos /\ cnt = ZeroPos /\ sdone = {} /\ gone = {} /\ kicked = {} /\ skipd = {} /\ carry = NoCarry /\ qfull = {}
   /\ TLCSet(1, 0)
 
 W == INSTANCE Wire
@@ -144,7 +145,7 @@ ExplainOK(g, sy) ==
         IF grp = <<>> THEN TRUE
         ELSE IF Mode(r, grp) = "now"
              THEN /\ NowOK(r, grp)
-                  /\ (late # <<>> /\ NextIsRound) => CarryMatch(Log[l + 1].obs[r], 0, Append(carry[r], late), 1)
+                  /\ (late # <<>> /\ NextIsRound /\ r \notin StalledNext) => CarryMatch(Log[l + 1].obs[r], 0, Append(carry[r], late), 1)
         \* (the backlog of a client that is not being read is compared when the round ends, if it is still there)
         ELSE IF NextIsRound /\ r \notin StalledNext \cup StalledNow THEN CarryMatch(Log[l + 1].obs[r], 0, Append(carry[r], grp), 1) ELSE TRUE
 ExplainS(g, sy) ==
@@ -239,9 +240,17 @@ Apply0(s, op) ==
     [] op.k \in {"stall", "unstall"} -> Plain(Nop)
     [] op.k = "send" -> \/ /\ ~FdBad(s, op) /\ op.dst # BUS /\ op.dst # <<>> /\ Resolve(queue, op.dst) \in StalledNow
                            /\ Plain(SendFull(s, OpMsgFds(s, op), SubSeq(FdPool(s, op), op.nfd + 1, Len(FdPool(s, op)))))
+                        \* clients that are not read and hold match rules may have full queues: their copies vanish
+                        \* (a queue that has filled up stays full while the client is not read: qfull only grows, so the
+                        \* copies that vanish form a suffix of what the client would have got)
+                        \/ /\ ~FdBad(s, op) /\ op.dst # BUS
+                           /\ \E N \in SUBSET ({r \in StalledNow : rules[r] # <<>> /\ cst[r] = "active"} \ qfull) :
+                                 /\ N # {}
+                                 /\ SendDropping(s, OpMsgFds(s, op), SubSeq(FdPool(s, op), op.nfd + 1, Len(FdPool(s, op))), qfull \cup N)
+                                 /\ UNCHANGED devs /\ qfull' = qfull \cup N
                         \/ Plain(IF FdBad(s, op) THEN Corrupt(s)
                                   ELSE IF op.dst = BUS THEN DriverOther(s, OpMsg(op))
-                                  ELSE Send(s, OpMsgFds(s, op), SubSeq(FdPool(s, op), op.nfd + 1, Len(FdPool(s, op)))))
+                                  ELSE SendX(s, OpMsgFds(s, op), SubSeq(FdPool(s, op), op.nfd + 1, Len(FdPool(s, op))), FALSE, qfull))
                         \/ Dev("LocalReplyUnstamped", Dev_LocalReplyUnstamped(s, OpMsg(op), op.fsnd))
     [] op.k = "close" -> Plain(PingAndClose(s, op.ser))
     [] op.k = "startsvc" -> Plain(StartService(s, op.ser, op.fl, op.n, op.flags))
@@ -249,7 +258,7 @@ Apply0(s, op) ==
     [] op.k = "svc_exit" -> Plain(ChildExit(op.n, op.status, op.signaled))
     [] op.k = "big" -> Plain(Corrupt(s))
     [] op.k = "raw" ->
-         LET With(D, A) == A /\ devs' = devs \cup D
+         LET With(D, A) == A /\ devs' = devs \cup D /\ UNCHANGED qfull
              RawStep(c, D) ==
                CASE c = "msg" -> /\ RawRepresentable(op.b)
                                  /\ LET m == RawM(s, op.b) IN
@@ -313,7 +322,7 @@ TSkip(s) ==
   /\ Ev.ops[s][pos[s] + 1].k # "connect"
   /\ pos' = [pos EXCEPT ![s] = @ + 1]
   /\ skipd' = skipd \cup {s}
-  /\ UNCHANGED vars /\ UNCHANGED <<l, cnt, sdone, gone, kicked, devs, carry>>
+  /\ UNCHANGED vars /\ UNCHANGED <<l, cnt, sdone, gone, kicked, devs, carry, qfull>>
 
 AllOpsDone == \A s \in Slot : pos[s] = Len(Ev.ops[s])
 \* the driver does the closing pings one client after the other, in increasing slot order
@@ -322,13 +331,13 @@ TSync(s) ==
   /\ Query(s, Ev.sync[SyncSer(s)].ser, 0, "ping", <<>>)
   /\ sdone' = sdone \cup {s}
   /\ ExplainS(gone \cup kicked, s)
-  /\ UNCHANGED <<l, pos, gone, kicked, devs, skipd>>
+  /\ UNCHANGED <<l, pos, gone, kicked, devs, skipd, qfull>>
 
 TDrop(s) ==
   /\ IsRound
   /\ \E order \in [1..Cardinality(NamesOf(queue, s)) -> NamesOf(queue, s)] : Drop(s, order)
   /\ Explain(gone \cup kicked)
-  /\ UNCHANGED <<l, pos, sdone, gone, kicked, devs, skipd>>
+  /\ UNCHANGED <<l, pos, sdone, gone, kicked, devs, skipd, qfull>>
 
 \* timing rules (one-sided): a slot whose callee is still there may expire only if it was recorded in a round that
 \* began at least reply_timeout ago (Ev.expMay = last such round, 0 = none) ...
@@ -336,7 +345,7 @@ TExpire(i) ==
   /\ IsRound /\ i \in 1..Len(pend) /\ (pend[i].callee = NoSlot \/ pend[i].born <= Ev.expMay)
   /\ ExpirePending(i)
   /\ Explain(gone \cup kicked)
-  /\ UNCHANGED <<l, pos, sdone, gone, kicked, devs, skipd>>
+  /\ UNCHANGED <<l, pos, sdone, gone, kicked, devs, skipd, qfull>>
 
 \* the start of a service fails on its own: the program cannot be executed (any time), or the start timeout has
 \* passed (one-sided timing as for TExpire: Ev.actMay = last round that began at least service_start_timeout ago)
@@ -345,7 +354,7 @@ TActFail(n) ==
   /\ \/ ExecFails(n)
      \/ act.pend[PIdx(act.pend, n)].born <= Ev.actMay /\ ActTimeout(n)
   /\ Explain(gone \cup kicked)
-  /\ UNCHANGED <<l, pos, sdone, gone, kicked, devs, skipd>>
+  /\ UNCHANGED <<l, pos, sdone, gone, kicked, devs, skipd, qfull>>
 ActNamesPending == {act.pend[i].n : i \in 1..Len(act.pend)}
 
 \* end of the round: everything read has been explained, every EOF seen by a client is one the model predicts
@@ -371,6 +380,8 @@ TEnd ==
   /\ kicked' = {}
   /\ gone' = gone \cup kicked
   /\ UNCHANGED <<devs, skipd>>
+  \* (a client that is read again, or gone, has no backlog any more)
+  /\ qfull' = qfull \cap StalledNext
   /\ cfg' = [cfg EXCEPT !.epoch = @ + 1]
   /\ UNCHANGED <<cst, dying, uid, uname, everNames, queue, rules, pend, mon, fdx, act, out>>
 
@@ -390,7 +401,7 @@ TReset ==
   /\ fdx' = [cap |-> [s \in Slot |-> FALSE], held |-> [s \in Slot |-> <<>>]]
   /\ act' = NoAct
   /\ out' = <<>>
-  /\ l' = l + 1 /\ pos' = ZeroPos /\ cnt' = ZeroPos /\ sdone' = {} /\ gone' = {} /\ kicked' = {} /\ skipd' = {} /\ carry' = NoCarry
+  /\ l' = l + 1 /\ pos' = ZeroPos /\ cnt' = ZeroPos /\ sdone' = {} /\ gone' = {} /\ kicked' = {} /\ skipd' = {} /\ carry' = NoCarry /\ qfull' = {}
 
 \* end of a scenario: every client closed, the driver waited for the daemon's descriptor table to settle
 \* (a start still under way keeps the channel to its helper process open)
@@ -399,9 +410,9 @@ TFinal == /\ l <= Len(Log) /\ Ev.e = "Final" /\ (Ev.fdleak = 0 \/ act.pend # <<>
           \* counts (fewer are possible here: the driver's stand-in may take the name before the forked helper has
           \* executed the program, and the daemon then reaps the helper)
           /\ \A i \in 1..Len(Ev.stublog) : Ev.stublog[i].k <= SpawnCount(Ev.stublog[i].n)
-          /\ UNCHANGED vars /\ UNCHANGED <<pos, cnt, sdone, gone, kicked, devs, skipd, carry>>
+          /\ UNCHANGED vars /\ UNCHANGED <<pos, cnt, sdone, gone, kicked, devs, skipd, carry, qfull>>
 
-TFirst == l = 1 /\ l' = 2 /\ UNCHANGED vars /\ UNCHANGED <<pos, cnt, sdone, gone, kicked, devs, skipd, carry>>
+TFirst == l = 1 /\ l' = 2 /\ UNCHANGED vars /\ UNCHANGED <<pos, cnt, sdone, gone, kicked, devs, skipd, carry, qfull>>
 
 TNext == \/ TFirst \/ TReset \/ TEnd \/ TEndDebug \/ TFinal
          \/ \E s \in Slot : TStep(s) \/ TSync(s) \/ TDrop(s) \/ TSkip(s)
